@@ -317,6 +317,42 @@ pub fn run_c07(rep: &mut Report, thorough: bool) {
     rep.stage("arith", "validated flow: 7 sequence numbers x 7 payload lengths x data offsets 5..15 (TCP options); FIN|ACK acknowledgement high half over all 65536 values", total, t0);
     ack_neighbourhood(&s, rep, "C07");
     sibling_bfs(&s.cfg, rep, "bfs-c07-sibling-destinations", thorough);
+    // the other fields of an accepted data segment (advertised window incl. 0, urgent pointer with
+    // and without URG, reserved bits, ECE / CWR / NS next to PSH|ACK) shape neither the flags nor
+    // the arithmetic nor the data of the answer
+    {
+        let t0 = std::time::Instant::now();
+        let f = s.flows[0].1.clone();
+        let c = s.cookies[&key_of(&f)].wrapping_add(1);
+        let wins: Vec<u16> = (0..400u16).chain([512, 1024, 1460, 8192, 65535]).collect();
+        let urgs: [u16; 5] = [0, 1, 17, 18, 0xffff];
+        let extra: [u16; 6] = [0, F_URG, 0x40, 0x80, 0x100, F_URG | 0x40];
+        let dims = [wins.len() as u64, urgs.len() as u64, extra.len() as u64, 2];
+        let total: u64 = dims.iter().product();
+        let opts = RunOpts::new("segment-fields").stateful().chunk(256).no_monitor();
+        let cfg = s.cfg.clone();
+        let cookies = s.cookies.clone();
+        engine::run(
+            &s.cfg,
+            total,
+            &opts,
+            |i| {
+                let d = engine::unrank(i, &dims);
+                let mut seg = TcpSeg::new(f.cport, f.sport, 1000, c, F_PSH | F_ACK | extra[d[2] as usize], HTTP_REQ);
+                seg.window = wins[d[0] as usize];
+                seg.urg = urgs[d[1] as usize];
+                seg.reserved = if d[3] == 1 { 5 } else { 0 };
+                vec![Cmd::Frame(f.tcp_seg(&seg))]
+            },
+            |it: &Item, sk: &mut Sink| {
+                sk.count("frames", 1);
+                let model = crate::model::Model::new();
+                engine::judge_item(&cfg, &model, &cookies, it, it.cmds.len(), "segment-fields", sk);
+            },
+            &mut rep.sink,
+        );
+        rep.stage("segment-fields", "one accepted data segment x advertised window 0..399 and 5 larger x 5 urgent pointers x 6 extra flag sets (URG, ECE, CWR, NS) x reserved bits {0, 5}: judged by the reference connection model", total, t0);
+    }
 }
 
 /// Sibling flows: same client address and both ports, different destination address (and the
@@ -517,6 +553,7 @@ pub fn run_c08(rep: &mut Report, thorough: bool) {
     context_switch(&s.cfg, rep);
     neighbour_probe(&s.cfg, rep);
     crate::props::apps::busy_stage(rep, &s.cfg, "C08", "busy-responder", &crate::props::apps::busy_convs(), 70_000);
+    crate::props::apps::edge_conv_stage(rep, "C08", "edge-cookie-conversations", &crate::props::apps::busy_convs());
     {
         // depth-2 histories over the base corpus and the L2-L4 set, process-level differential
         let mut fr: Vec<crate::props::pairs::PFrame> = crate::props::pairs::l2l4_frames();
@@ -1028,6 +1065,49 @@ pub fn run_c09(rep: &mut Report, thorough: bool) {
     rep.stage("growth-once", "200 valid data segments on one flow: table size stays 1", 200, t0);
     ack_neighbourhood(&s, rep, "C09");
     sibling_bfs(&s.cfg, rep, "bfs-c09-sibling-destinations", thorough);
+    // whatever the accepted segment CARRIES (every corpus payload, every STUN attribute shape incl.
+    // CHANGE-REQUEST in >= 256-byte requests, twice in a row): one flow, one entry
+    {
+        let t0 = std::time::Instant::now();
+        let mut shapes: Vec<Vec<u8>> = payloads().into_iter().map(|p| p.bytes).collect();
+        shapes.extend(stun_attr_shapes());
+        for fl in [2u8, 4, 6] {
+            shapes.push(stun_magic(&[stun_attr(0x8022, &[b'x'; 244]), stun_attr(3, &[0, 0, 0, fl])].concat(), &ID12));
+        }
+        let f = s.flows[0].1.clone();
+        let c = s.cookies[&key_of(&f)].wrapping_add(1);
+        let ns = shapes.len() as u64;
+        let opts = RunOpts::new("payload-table-size").stateful().chunk(128).no_monitor();
+        let cfg = s.cfg.clone();
+        engine::run(
+            &s.cfg,
+            ns,
+            &opts,
+            |i| {
+                let p = &shapes[i as usize];
+                vec![Cmd::Frame(f.tcp(1000, c, F_PSH | F_ACK, p)), Cmd::Frame(f.tcp(1000u32.wrapping_add(p.len() as u32), c, F_PSH | F_ACK, p))]
+            },
+            |it: &Item, sk: &mut Sink| {
+                sk.count("frames", 2);
+                for k in 1..=2 {
+                    if it.outs[k].reply.is_some() && it.outs[k].n != 1 {
+                        sk.violation(Violation {
+                            prop: "C09".into(),
+                            key: "table-size-after-payload".into(),
+                            what: format!("one flow sent {} accepted data segment(s) carrying {}...: the connection table has {} entries", k, hex(&shapes[it.idx as usize][..shapes[it.idx as usize].len().min(24)]), it.outs[k].n),
+                            cfg: cfg.clone(),
+                            cmds: it.cmds[..=k].to_vec(),
+                            idx: it.idx,
+                            stage: "payload-table-size".into(),
+                        });
+                        break;
+                    }
+                }
+            },
+            &mut rep.sink,
+        );
+        rep.stage("payload-table-size", "every corpus payload and STUN attribute shape as first and second accepted data segment of one flow: exactly one entry", ns, t0);
+    }
     // many validated flows in ONE table: size == number of flows validated so far (no pruning, no
     // cap, no wrap of a narrow counter), and afterwards every flow still owns its partial request
     let t0 = std::time::Instant::now();
